@@ -32,7 +32,8 @@ COMP = 'c07x'
 # what Props/C07x.v reaches; the rest of the hierarchy clause is carried by the numerical identities below and the curve oracles of harness/c07.py
 PROVED_STATE = {'proved': ['EBCM -> SIR compact effective degree (binomial change of variables Phi_ced, formal derivative) and the wrapper\'s initial point Phi_ced(1,0)',
                            'EBCM -> SIR effective degree, full (s,i) model (trinomial change of variables Phi_ed), over the hand-written model and over the definition generated from the source, and the wrapper\'s initial point Phi_ed(1,0)',
-                           'heterogeneous mean-field SIR on one degree class -> homogeneous mean-field SIR without the assumed chain rule'],
+                           'heterogeneous mean-field SIR on one degree class -> homogeneous mean-field SIR without the assumed chain rule',
+                           'regular graphs, rho path: compact pairwise / homogeneous pairwise (SIS, SIR) and heterogeneous / homogeneous mean-field (SIS, SIR) wrappers start at corresponding points'],
                 'numerical': []}
 
 
@@ -206,6 +207,8 @@ def case_wrapper(EoN, p):
     import numpy as np
     if p['wrapper'] in ('EBCM_uniform_introduction', 'EBCM_discrete_uniform_introduction', 'EBCM_pref_mix'):
         return case_wrapper_pk(EoN, p)
+    if p['wrapper'].startswith('regular/'):
+        return case_wrapper_regular(EoN, p)
     G = O.graph_from_desc(p['graph']); N = G.order(); rho = p['rho']; tau, g = p['tau'], p['gamma']
     degs = [d for _, d in G.degree()]; K = max(degs) + 1
     c = [(1 - rho) * degs.count(k) / N for k in range(K)]
@@ -299,6 +302,32 @@ def case_wrapper_pk(EoN, p):
     return None
 
 
+def case_wrapper_regular(EoN, p):
+    """on a k-regular graph with rho the big and the small wrapper hand corresponding arguments to their solvers
+    (theorems C07x_*_regular_initial_points): Sk0 = (0,..,0,S0), same SS0/SI0, n = k, Nk = (0,..,0,N)"""
+    from . import ode_oracles as O
+    import numpy as np
+    G = O.graph_from_desc(p['graph']); N = G.order(); rho = p['rho']; tau, g = p['tau'], p['gamma']
+    k = p['k']; z = [0.0] * k; w = p['wrapper']
+    cap = lambda wr, inner: capture(EoN, wr, inner, G, tau, g, rho=rho)['a']
+    if w == 'regular/SIR_pairwise':
+        Sk0, I0, R0, SS0, SI0 = cap('SIR_compact_pairwise_from_graph', 'SIR_compact_pairwise')[:5]
+        S0h, I0h, R0h, SI0h, SS0h, n = cap('SIR_homogeneous_pairwise_from_graph', 'SIR_homogeneous_pairwise')[:6]
+        ok = closev(list(Sk0) + [SS0, SI0, R0, I0], z + [S0h, SS0h, SI0h, R0h, I0h]) and C.close(float(n), float(k))
+        return None if ok else 'SIR compact pairwise starts at (Sk,SS,SI,R,I) = %s, homogeneous pairwise at (S,SS,SI,R,I) = %s with n = %s (k = %d)' % (fl(list(Sk0) + [SS0, SI0, R0, I0]), fl([S0h, SS0h, SI0h, R0h, I0h]), n, k)
+    if w == 'regular/SIS_pairwise':
+        Sk0, Ik0, SI0, SS0, II0 = cap('SIS_compact_pairwise_from_graph', 'SIS_compact_pairwise')[:5]
+        S0h, I0h, SI0h, SS0h, n = cap('SIS_homogeneous_pairwise_from_graph', 'SIS_homogeneous_pairwise')[:5]
+        ok = closev(list(Sk0) + list(Ik0) + [SI0, SS0], z + [S0h] + z + [I0h] + [SI0h, SS0h]) and C.close(float(n), float(k)) and C.close(float(SS0 + II0 + 2 * SI0), float(N * k))
+        return None if ok else 'SIS compact pairwise starts at (Sk,Ik,SI,SS) = %s (twoM = %s), homogeneous pairwise at (S,I,SI,SS) = %s with n = %s (k = %d)' % (fl(list(Sk0) + list(Ik0) + [SI0, SS0]), SS0 + II0 + 2 * SI0, fl([S0h, I0h, SI0h, SS0h]), n, k)
+    if w == 'regular/SIS_meanfield':
+        Sk0, Ik0 = cap('SIS_heterogeneous_meanfield_from_graph', 'SIS_heterogeneous_meanfield')[:2]
+        S0h, I0h, n = cap('SIS_homogeneous_meanfield_from_graph', 'SIS_homogeneous_meanfield')[:3]
+        ok = closev(list(Sk0) + list(Ik0), z + [S0h] + z + [I0h]) and C.close(float(n), float(k))
+        return None if ok else 'SIS heterogeneous mean-field starts at (Sk,Ik) = %s, homogeneous mean-field at (S,I) = %s with n = %s (k = %d)' % (fl(list(Sk0) + list(Ik0)), fl([S0h, I0h]), n, k)
+    return 'unknown wrapper'
+
+
 CASES = {'x_spec': case_spec, 'x_wrapper': case_wrapper}
 
 
@@ -374,6 +403,10 @@ def wrapper_points(rng, n):
                     xs=[rng.randint(2, 16) / 16.0 for _ in range(3)])
         for w in WRAPPERS:
             out.append(dict(base, wrapper=w))
+        kreg = rng.choice([2, 3, 4]); nreg = rng.choice([8, 10, 12])
+        Greg = O.labelled(O.regular_graph(rng, kreg, nreg), rng)
+        for w in ('regular/SIR_pairwise', 'regular/SIS_pairwise', 'regular/SIS_meanfield'):
+            out.append(dict(graph=O.graph_desc(Greg), k=kreg, rho=base['rho'], tau=base['tau'], gamma=base['gamma'], wrapper=w))
         Pk = rand_Pkdict(rng)
         pkb = dict(Pk={str(k): str(v) for k, v in Pk.items()}, rho=base['rho'], N=rng.choice([50, 1000]), tau=base['tau'], gamma=base['gamma'], p=rng.choice([0.25, 0.5]), xs=base['xs'])
         for w in ('EBCM_uniform_introduction', 'EBCM_discrete_uniform_introduction', 'EBCM_pref_mix'):
@@ -514,7 +547,7 @@ def part(run, tier, report, EoN=None):
             res = 'CRASH %s: %s' % (type(e).__name__, str(e)[:120])
         stats[p['wrapper']] = stats.get(p['wrapper'], 0) + 1
         if res:
-            found += report(run, 'C07/wrapper/%s/rho' % p['wrapper'], '%s(rho=%s) does not start the model on the EBCM manifold: %s' % (p['wrapper'], p['rho'], res),
+            found += report(run, 'C07/wrapper/%s/rho' % p['wrapper'], '%s(rho=%s) does not start the model on the invariant manifold on which C07\'s models correspond: %s' % (p['wrapper'], p['rho'], res),
                             {'kind': 'x_wrapper', 'params': p, 'detail': res, 'also_broken': [b[0] for b in broken]})
     if broken and not found:
         for what, detail in broken:
@@ -547,7 +580,7 @@ def attach(run0, replay0, cases0, report):
         cov['rule'] = cov.get('rule', '') + '  ' + r['rule']
         cov.setdefault('distribution', {})['c07x'] = r['stats']
         vno = [x for x in cov.get('validated_numerically_only', []) if 'prefmix' not in x and 'effective degree' not in x and 'initial conditions' not in x and 'chain rule' not in x]
-        vno.append('initial conditions of the regular-graph wrappers on the symmetric subspace (harness/c07.py curve oracles)')
+        vno.append('initial conditions of the heterogeneous pairwise / pair-based / individual-based wrappers on the symmetric subspace of regular graphs (harness/c07.py curve oracles)')
         if 'cited' in cov:
             cov['cited'] = [x for x in cov['cited'] if 'chain rule' not in x]
         cov['validated_numerically_only'] = vno + PROVED_STATE['numerical']
